@@ -195,7 +195,7 @@ def correspondence(ck, binpath, n, label="corr"):
     if rc != 0:
         ck.tie_broken("harness c16 corr failed", err[-2000:])
         return
-    obs = [json.loads(l) for l in out.splitlines() if l.strip()]
+    obs = [json.loads(l) for l in out.split("\n") if l.strip()]
     terms, kept, stats = [], [], {"worlds": 0, "outside_grammar": 0, "types": 0, "dropped_types": 0, "checks": 0, "unions": 0, "subs": 0, "eff": 0}
     fams = {}
     for o in obs:
